@@ -30,6 +30,10 @@ class MaxOptimizer(AffineOptimizer):
         dim = list(range(1, base.ndim)) if (axis == 0) else list(range(0, base.ndim - 1))
         rmin = torch.amin(base, dim=dim, keepdim=True)
         rmax = torch.amax(base, dim=dim, keepdim=True)
+        # The quantization range must contain zero: otherwise the zero-point of a one-sided group falls outside
+        # the unsigned code range and eventually overflows its int8 storage (or the int8 subtraction on dequantize)
+        rmin = torch.clamp(rmin, max=0)
+        rmax = torch.clamp(rmax, min=0)
         qmin = -(2 ** (bits - 1))
         qmax = 2 ** (bits - 1) - 1
         scale = (rmax - rmin) / (qmax - qmin)
